@@ -20,7 +20,7 @@ func newEnc(w *World, fn *ssa.Function, fc *FuncContract, pass int, prev *Enc) *
 		edgeCond: map[[2]int]Term{}, writes: map[int]map[string]bool{}, callOrd: map[string]int{}, kindOrd: map[string]int{},
 		debugVars: map[string][]ssa.Value{}, closures: map[ssa.Value]*ssa.MakeClosure{}, ghostLoc: map[string]Val{},
 		paramVals: map[string]Val{}, used: map[string]bool{}, typeIDs: w.typeIDs,
-		atHit: map[int]bool{}, rangeOf: map[*ssa.Range]ssa.Value{}, callLog: map[string]SV{}, replayTerm: map[string]SV{},
+		atHit: map[int]bool{}, rangeOf: map[*ssa.Range]ssa.Value{}, callLog: map[string]SV{}, replayTerm: map[string]SV{}, labels: map[string]*State{},
 	}
 	if fc != nil && fc.Mode == "bv" {
 		e.bv = true
@@ -100,6 +100,7 @@ func (e *Enc) run() {
 		e.bindParam(fv, fv.Name(), fv.Type())
 	}
 	e.worldAxioms()
+	e.locksAtEntry()
 	e.entrySpecs()
 	e.nEntryAsm = len(e.asm)
 
@@ -299,7 +300,7 @@ func (e *Enc) enterBlock(b *ssa.BasicBlock) {
 	// ---- loop header ----
 	ls := e.loopSpec(li.ord)
 	// 1. invariant holds on entry
-	env := e.newSpecEnv(e.cur, e.cur)
+	env := e.newSpecEnv(e.cur, e.init)
 	env.phiSubst = phiFwd
 	env.atBlock = b
 	for i, cl := range ls.Invs {
